@@ -31,6 +31,7 @@ from typing import Iterator, Optional, Tuple, Union
 
 import duckdb
 
+from vtlengine import _verif
 from vtlengine.duckdb_transpiler.Transpiler.operators import register_regex_functions
 from vtlengine.Exceptions import RunTimeError
 
@@ -86,6 +87,7 @@ def set_decimal_config() -> None:
         scale: Number of decimal places
     """
     global DECIMAL_WIDTH, DECIMAL_SCALE
+    _verif.access("decimal_config", "w", None)
     DECIMAL_WIDTH = int(os.getenv(DECIMAL_WIDTH_ENV_VAR, DECIMAL_WIDTH))
     DECIMAL_SCALE = int(os.getenv(DECIMAL_SCALE_ENV_VAR, DECIMAL_SCALE))
 
@@ -203,6 +205,7 @@ def configure_duckdb_connection(conn: duckdb.DuckDBPyConnection) -> None:
     if max_temp_dir_size:
         statements.append(f"SET max_temp_directory_size = '{max_temp_dir_size}'")
 
+    _verif.event("configure", None, None)
     conn.execute(";\n".join(statements))
 
     # Register Python UDFs (regex fallback for patterns RE2 cannot compile).
@@ -236,19 +239,24 @@ def configured_connection(database: str = ":memory:") -> Iterator[duckdb.DuckDBP
     Path(temp_dir).mkdir(parents=True, exist_ok=True)
     session_dir = Path(temp_dir) / f"duckdb_tmp_{uuid.uuid4().hex}"
     session_dir.mkdir(exist_ok=True)
+    _verif.event("session_dir", str(session_dir), None)
 
     if database == ":memory:" and not _use_in_memory_db():
         database = str(session_dir / "session.duckdb")
 
+    _verif.event("connect", database, None)
     conn = create_configured_connection(database)
+    _verif.event("connected", database, conn)
     conn.execute(f"SET temp_directory = '{session_dir}'")
     try:
         yield conn
     finally:
         try:
             conn.close()
+            _verif.event("closed", database, None)
         finally:
             shutil.rmtree(session_dir, ignore_errors=True)
+            _verif.event("rmtree", str(session_dir), None)
 
 
 def get_system_info() -> dict[str, Union[float, int, str, None]]:
